@@ -596,6 +596,50 @@ def r13_for_ref(text, idents=()):
     return eds
 
 
+# ---------------------------------------------------------------- R15 `for (i, x) in E.iter().enumerate() {`
+def r15_enumerate(text):
+    """`for (I, X) in E.iter().enumerate() { BODY }` ->
+       `let en_N_ = &E; for I in 0..en_N_.len() { let X = &en_N_[I]; BODY }`  (one site per call).
+    Identical for slices / Vecs (E is evaluated once, elements visited in index order); any other
+    adapter chain stays unsupported (=> undecided)."""
+    m = mask(text)
+    n = 0
+    for mt in re.finditer(r"(?<![A-Za-z0-9_])for(?![A-Za-z0-9_])", m):
+        try:
+            bo = _cond_end(m, mt.end())
+        except Unsupported:
+            continue
+        inm = re.search(r"\sin\s", m[mt.end():bo])
+        if not inm:
+            continue
+        n += 1
+        pat_s, pat_e = mt.end(), mt.end() + inm.start()
+        es, ee = mt.end() + inm.end(), bo
+        expr = text[es:ee].strip()
+        em = re.fullmatch(r"(.*?)\s*\.\s*iter\s*\(\s*\)\s*\.\s*enumerate\s*\(\s*\)", expr, re.S)
+        if not em:
+            continue
+        pat = text[pat_s:pat_e].strip()
+        pm = re.fullmatch(r"\(\s*([a-z_][A-Za-z0-9_]*)\s*,\s*([a-z_][A-Za-z0-9_]*)\s*\)", pat)
+        if not pm:
+            raise Unsupported("R15: enumerate with a pattern other than (i, x)")
+        j = skip_ws_back(m, mt.start())
+        if j >= 0 and m[j] not in ";{}":
+            raise Unsupported("R15: `for` not at statement start")
+        name = "en_%d_" % n
+        ls = mt.start()
+        q = ls
+        while q > 0 and text[q - 1] in " \t":
+            q -= 1
+        indent = text[q:ls] if (q == 0 or text[q - 1] == "\n") else ""
+        base = em.group(1).strip()
+        e1 = Edit(ls, ls, "let %s = &%s;\n%s" % (name, base, indent), "R15")
+        e2 = Edit(pat_s, bo, " %s in 0..%s.len() " % (pm.group(1), name), "R15")
+        e3 = Edit(bo + 1, bo + 1, " let %s = &%s[%s];" % (pm.group(2), name, pm.group(1)), "R15")
+        return [e1, e2, e3]
+    return []
+
+
 # ---------------------------------------------------------------- R14 const fn
 def r14_const_fn(text):
     m = mask(text)
@@ -608,7 +652,7 @@ def r14_const_fn(text):
 # ---------------------------------------------------------------- R15 matches! with binding-free patterns is fine; nothing to do
 
 
-ITERATED = {"R6", "R7", "R10", "R11"}
+ITERATED = {"R6", "R7", "R10", "R11", "R15"}
 
 TABLE = {
     "R1": r1_visibility,
@@ -625,10 +669,11 @@ TABLE = {
     "R12": r12_ctor_eta,
     "R13": r13_for_ref,
     "R14": r14_const_fn,
+    "R15": r15_enumerate,
 }
-ORDER = ["R2", "R1", "R1p", "R14", "R4", "R3", "R5", "R6", "R13", "R11", "R7", "R8", "R12", "R10"]
+ORDER = ["R2", "R1", "R1p", "R14", "R4", "R3", "R5", "R6", "R15", "R13", "R11", "R7", "R8", "R12", "R10"]
 
-EXEC_TOUCHING = {"R3", "R4", "R6", "R7", "R8", "R10", "R11", "R12", "R13", "R14"}
+EXEC_TOUCHING = {"R3", "R4", "R6", "R7", "R8", "R10", "R11", "R12", "R13", "R14", "R15"}
 
 
 def apply_rewrites(text, enabled, opts=None):
